@@ -65,7 +65,11 @@ static std::string fkey(const Basic &e)
         case SYMENGINE_OR:
         case SYMENGINE_MAX:
         case SYMENGINE_MIN:
-        case SYMENGINE_XOR: {
+        case SYMENGINE_XOR:
+        case SYMENGINE_BETA:           // symmetric two-argument nodes store their arguments in the library's own
+        case SYMENGINE_KRONECKERDELTA: // order, which may flip between two doubles that agree to 15 digits
+        case SYMENGINE_EQUALITY:
+        case SYMENGINE_UNEQUALITY: {
             std::vector<std::string> ks;
             for (auto &a : e.get_args())
                 ks.push_back(fkey(*a));
@@ -340,6 +344,34 @@ static void report(Ctx &c, const std::string &sig, const std::string &desc)
         c.violation(sig, desc);
 }
 
+// A Symbol whose name is one of the parser's constant names prints exactly like that constant; the string cannot
+// denote both.  If replacing such symbols by the constants explains the whole difference, the mismatch gets the
+// single signature of that class.
+static bool explained_by_constant_named_symbol(const RCP<const Basic> &r, const RCP<const Basic> &p)
+{
+    static const std::map<std::string, RCP<const Basic>> names = {{"e", E},     {"E", E},       {"EulerGamma", EulerGamma}, {"Catalan", Catalan},
+                                                                  {"GoldenRatio", GoldenRatio}, {"pi", pi},     {"I", I},   {"oo", Inf},
+                                                                  {"inf", Inf}, {"zoo", ComplexInf}, {"nan", Nan}, {"True", boolTrue}, {"False", boolFalse}};
+    map_basic_basic m;
+    std::function<void(const Basic &)> walk = [&](const Basic &e) {
+        if (is_a<Symbol>(e)) {
+            auto it = names.find(down_cast<const Symbol &>(e).get_name());
+            if (it != names.end())
+                m[e.rcp_from_this()] = it->second;
+        }
+        for (auto &a : e.get_args())
+            walk(*a);
+    };
+    walk(*r);
+    if (m.empty())
+        return false;
+    try {
+        RCP<const Basic> r2 = r->subs(m);
+        return has_float(*r) ? fkey(*r2) == fkey(*p) : key(*r2) == key(*p);
+    } catch (std::exception &) {
+        return false;
+    }
+}
 // silent version of the round-trip test, used in the parent to quarantine states (no descendants of a state that
 // does not round-trip: one defect, one minimal witness)
 static bool roundtrips(const RCP<const Basic> &r)
@@ -374,6 +406,13 @@ static bool check_state(const RCP<const Basic> &r, const std::string &recipe, Ct
         p = parse(s);
     } catch (std::exception &x) {
         std::string m = x.what();
+        std::string ud, uc = find_unstable(*r, ud);
+        if (!uc.empty()) {
+            c.count(K_UNSTABLE);
+            report(c, "unstable-form:" + uc, recipe + " = " + s + " [" + key(*r) + "] is not reproduced by its own constructors (" + ud + "), so parse(str) throws "
+                                                 + m + "; not a printer/parser defect");
+            return false;
+        }
         report(c, "roundtrip:parse-throws(" + m.substr(0, 32) + "):" + node_class(*r), recipe + " = " + s + " [" + key(*r) + "]: parse(str) throws " + m);
         return false;
     }
@@ -381,6 +420,12 @@ static bool check_state(const RCP<const Basic> &r, const std::string &recipe, Ct
     c.count(fl ? K_RT_FLOAT : K_RT_EXACT);
     bool ok = fl ? fkey(*p) == fk : (key(*p) == key(*r));
     c.outcome(std::string(type_code_name(r->get_type_code())) + (fl ? ":float" : ":exact"));
+    if (!ok && explained_by_constant_named_symbol(r, p)) {
+        report(c, "roundtrip:symbol-named-like-parser-constant",
+               recipe + " = " + s + " [" + key(*r) + "]; parse(str) = " + sstr(p) + " [" + key(*p)
+                   + "]: a Symbol named like a parser constant prints like the constant and is read back as the constant");
+        return false;
+    }
     if (!ok) {
         std::string ud, uc = find_unstable(*r, ud);
         if (!uc.empty()) {
